@@ -208,7 +208,7 @@ func runC05(ctx *harness.Ctx) {
 			}
 		}
 	})
-	ctx.Rapid("generated", ctx.Pick(10000, 200000), func(t *rapid.T) {
+	ctx.Rapid("generated", ctx.Pick(10000, 80000), func(t *rapid.T) {
 		c := drawGen(t, "", drawDepth(t))
 		es := entriesForKind(c.S.Kind)
 		e := es[rapid.IntRange(0, len(es)-1).Draw(t, "entry")]
@@ -220,7 +220,7 @@ func runC05(ctx *harness.Ctx) {
 		}
 		one(t, "generated", e, c.Text)
 	})
-	ctx.Rapid("generated-relaxed", ctx.Pick(5000, 100000), func(t *rapid.T) {
+	ctx.Rapid("generated-relaxed", ctx.Pick(5000, 40000), func(t *rapid.T) {
 		c := drawGenRelaxed(t, "", drawDepth(t))
 		es := entriesForKind(c.S.Kind)
 		e := es[rapid.IntRange(0, len(es)-1).Draw(t, "entry")]
@@ -255,7 +255,7 @@ func runC05(ctx *harness.Ctx) {
 		}
 		one(t, "generated-list", entryByName["ParseStatements"], strings.Join(parts, "\n;"))
 	})
-	ctx.Rapid("mutant", ctx.Pick(10000, 200000), func(t *rapid.T) {
+	ctx.Rapid("mutant", ctx.Pick(10000, 80000), func(t *rapid.T) {
 		s := drawValid(t)
 		src := mutate.Tokens(t, s.Src, 2)
 		es := entriesForKind(s.Kind)
